@@ -1,7 +1,7 @@
 (** C08 - Comparison is one consistent total order; equal values are interchangeable keys.
     Property theorems only; proofs in Proofs/F64Order.v, Proofs/NumExact.v. *)
 From Coq Require Import ZArith Bool.
-From JaqV Require Import Base.F64 Val.Num Proofs.F64Order Proofs.NumExact.
+From JaqV Require Import Base.F64 Val.Num Proofs.F64Order Proofs.NumExact Proofs.HashLaws.
 Local Open Scope Z_scope.
 
 (** floats free of NaN: [float_cmp] is a total preorder with both zeros identified *)
@@ -36,6 +36,14 @@ Theorem int_order_exact : forall x y a b, int_val x = Some a -> int_val y = Some
   num_cmp x y = Z.compare a b /\ num_eqb x y = (a =? b).
 Proof. intros. split; [apply num_cmp_ints | apply num_eqb_ints]; assumption. Qed.
 Print Assumptions int_order_exact.
+
+(** equal numbers are interchangeable as keys: whatever the representations (machine integer, big integer, float,
+    decimal literal), numbers that are [==] feed the hasher the same writes.  [image_ok]: the float image is a 64-bit
+    pattern, finite for machine integers - facts about SpecFloat's rounding, assumed explicitly and checked on examples *)
+Theorem equal_numbers_hash_equally : forall x y, HashLaws.image_ok x -> HashLaws.image_ok y ->
+  num_eqb x y = true -> hash_num x = hash_num y.
+Proof. exact HashLaws.hash_coherent. Qed.
+Print Assumptions equal_numbers_hash_equally.
 
 Example zeros_equal : float_cmp pos_zero neg_zero = Eq /\ float_eq pos_zero neg_zero = true /\ nonan neg_zero.
 Proof. repeat split. Qed.
